@@ -50,7 +50,8 @@ impl Gen {
             "verify" => Some(("verify".into(), distinfos::verify(rng))),
             "scanindex" => {
                 let (ls, err, nl) = scanindexes::lines(rng);
-                Some(("scanindex".into(), json!({"lines": ls.iter().map(|l| codes(l)).collect::<Vec<_>>(), "err_at": err, "final_nl": tf(nl)})))
+                Some(("scanindex".into(), json!({"lines": ls.iter().map(|l| codes(l)).collect::<Vec<_>>(), "err_at": err, "final_nl": tf(nl),
+                                                 "err_kind": scanindexes::err_kind(rng), "err_mid": tf(rng.chance(1, 2))})))
             }
             "pkgdb" => {
                 let n = rng.range(0, 5);
@@ -107,6 +108,26 @@ impl Gen {
             "sumhist" => {
                 let vals = summaries::entry_values(rng);
                 Some(("sumhist".into(), json!({"steps": summaries::history(rng, &vals)})))
+            }
+            "sumnames" => {
+                // repeated set_pkgname with related names (a '-' segment inserted, removed, moved), other calls in between
+                let stem = format!("{}{}", rng.pick_str(&["py311", "a", "lib", "x-y"]), rng.pick_str(&["-foo", "-b", ""]));
+                let mut steps = vec![];
+                for _ in 0..rng.range(2, 6) {
+                    let name = match rng.below(7) {
+                        0 => format!("{}-1.0", stem),
+                        1 => format!("{}-bar-1.0nb1", stem),
+                        2 => format!("{}-", stem),
+                        3 => format!("-{}", stem),
+                        4 => stem.clone(),
+                        5 => format!("{}--2", stem),
+                        _ => names::pkgname(rng),
+                    };
+                    steps.push(json!(["set", 16, codes(&name)]));
+                    if rng.chance(1, 3) { steps.push(json!(["set", 3, codes(&summaries::text(rng))])); }
+                    if rng.chance(1, 4) { steps.push(json!(["push", 6, codes(&summaries::text(rng))])); }
+                }
+                Some(("sumhist".into(), json!({"steps": steps})))
             }
             "sumparse" => {
                 let t = if rng.chance(1, 4) { summaries::canonical_text(&summaries::entry_values(rng)) } else { summaries::faulty_text(rng) };
@@ -170,6 +191,24 @@ impl Gen {
                 }
                 let pj: Vec<Value> = pool.iter().map(|n| codes(n)).collect();
                 Some(("reduce".into(), json!({"p": codes(&p), "pool": pj, "steps": steps})))
+            }
+            "patmatrix" => {
+                let (ps, ns) = loop {
+                    let (ps, ns) = patterns::matrix(rng);
+                    if ps.iter().chain(ns.iter()).all(|x| versions::max_digit_run(x) <= 18) { break (ps, ns); }
+                };
+                Some(("patmatrix".into(), json!({"ps": ps.iter().map(|p| codes(p)).collect::<Vec<_>>(), "ns": ns.iter().map(|n| codes(n)).collect::<Vec<_>>()})))
+            }
+            "best" if rng.chance(1, 6) => {
+                // version ties between different names: the byte-wise smaller full name must win
+                let b = patterns::base(rng).replace(['{', '}', '<', '>', '*', '?', '[', ']'], "");
+                let v = rng.pick_str(&["1.0", "2", "1.0nb1", "0", "3.1rc1"]);
+                let (v1, v2) = match rng.below(3) { 0 => (v.to_string(), v.to_string()), 1 => (v.to_string(), format!("{}.0", v)), _ => (format!("{}_", v), format!("{}.", v)) };
+                let other = format!("{}{}", b, rng.pick_str(&["+", "-1", "-x", "2", ".", "-"]));
+                let (a, c) = (format!("{}-{}", b, v1), format!("{}-{}", other, v2));
+                let p = rng.pick_str(&["*", "*-[0-9]*", "?*"]).to_string();
+                let (a, c) = if rng.chance(1, 2) { (a, c) } else { (c, a) };
+                Some(("best".into(), json!({"p": codes(&p), "a": codes(&a), "b": codes(&c)})))
             }
             "best" => {
                 let (p, names) = loop {
